@@ -5,6 +5,7 @@ CONSTANTS
   MaxData = 1
   MaxHist = 0
   RegWhileClaimed = "refuse"
+  AltSpelling = "off"
 INVARIANTS Reach_SurplusDelivered
 VIEW ViewObs
 CONSTRAINT Bound
